@@ -13,7 +13,6 @@ import (
 	"os"
 	"path/filepath"
 	"sort"
-	"strings"
 
 	"k8s.io/klog"
 
@@ -273,29 +272,15 @@ func featuresOf(cs Case, tr trace) features {
 }
 
 func (f features) bucket(n int) string {
-	var b []string
 	switch {
-	case n <= 10:
-		b = append(b, "ops<=10")
 	case n <= 30:
-		b = append(b, "ops<=30")
+		return "ops<=30"
 	case n <= 60:
-		b = append(b, "ops<=60")
-	default:
-		b = append(b, "ops>60")
+		return "ops<=60"
+	case n <= 100:
+		return "ops<=100"
 	}
-	add := func(x bool, s string) {
-		if x {
-			b = append(b, s)
-		}
-	}
-	add(f.reclaimTimeout, "T")
-	add(f.reclaimUnknown, "U")
-	add(f.liveSurvived, "L")
-	add(f.upstreamDeleted, "D")
-	add(f.storeDropped, "S")
-	add(f.returned, "R")
-	return strings.Join(b, "+")
+	return "ops>100"
 }
 
 func fails(c *rig.Ctx, cs Case, class string) bool {
